@@ -267,6 +267,11 @@ type world struct {
 	joined  chan struct{}
 	runDone bool
 	heads   jsync.NewHeadSubscription
+	// further new-head subscribers (C06, class subChurn)
+	subChurn  bool
+	extraSubs []*extraSub
+	subSeq    int
+	subEvents int
 	reorgCh jsync.ReorgSubscription
 
 	runPanic string
@@ -471,6 +476,10 @@ func (w *world) shutdown() {
 	}
 	<-w.joined
 	w.heads.Unsubscribe()
+	for _, es := range w.extraSubs {
+		es.sub.Unsubscribe()
+	}
+	w.extraSubs = nil
 	w.reorgCh.Unsubscribe()
 	synctest.Wait()
 	w.c.SimNs += int64(time.Since(w.start))
